@@ -21,7 +21,7 @@ UNITS = [
     Unit("csem.wait", "wait_until.c", defines=["U_WAIT"], enforce="wait",
          lifts={"body": Lift(CS, r"void counting_semaphore::wait\(", rules=[
              Call(r"cond_\.wait", "cv_wait(&self->cond_, {0})", 1),
-             Members(["value_"])], loops={1: LOOP_WAIT, "count": 1})},
+             Members(["value_"])], loops={1: LOOP_WAIT, "count": 1, "allow_missing": True})},
          funcs=[CS + ": detail::counting_semaphore::wait"], min_obligations=40),
     Unit("csem.try_acquire", "wait_until.c", defines=["U_TRY_ACQUIRE"], enforce="try_acquire",
          lifts={"body": Lift(CS, r"bool counting_semaphore::try_acquire\(", rules=[Members(["value_"])])},
